@@ -1,5 +1,6 @@
 /-
-  Cello/Str.lean — executable model of the heap `String` of src/String.c (as it is in /repo now, after fix 62eac2a),
+  Cello/Str.lean — executable model of the heap `String` of src/String.c (as it is in /repo now, after fixes 62eac2a,
+  e60e6ec `String_Rem` takes `c_str(obj)` first, a626877 `String_Format_To` returns a negative size untouched),
   and the specification it is proved against (CelloProofs/Props/C16.lean): the abstract byte string `List UInt8`
   without NUL, manipulated with list functions.
 
@@ -151,11 +152,14 @@ def Str.cap (s : Str) : Nat := s.buf.length
 
 inductive Exc where
   | ValueError
+  | ClassError      -- `c_str(obj)` on an object whose type has no C_Str instance (`String_Rem` after e60e6ec)
+  | FormatError     -- `print_to_with`: a `format_to` returned a negative value
 deriving Repr, DecidableEq, Inhabited
 
 inductive Outcome where
   | ok (ret : Nat)          -- normal return (`ret`: the `int` returned by `format_to`, 0 for `void`)
   | raised (e : Exc)
+  | rejected                -- `format_to` returned a negative value: libc rejects the format (`String_Format_To` after a626877)
 deriving Repr, DecidableEq, Inhabited
 
 structure Res where
@@ -213,9 +217,9 @@ def resize (P : Params) (J : Nat → Byte) (s : Str) (n : Nat) : Res :=
     { st := ⟨writeAt b1 n [0]⟩, out := .ok 0,
       log := [.rd 0 (m + 1) s.buf.length, .wr n 1 b1.length] }
 
-/-- `String_Rem(self, obj)` with `c_str(obj) = x`:
-    `pos = strstr(val, x); if (pos is NULL) throw(ValueError …);
-     count = strlen(pos) - strlen(x) + 1; memmove(pos, pos + strlen(x), count);`   (no reallocation) -/
+/-- `String_Rem(self, obj)` with `sub = c_str(obj) = x`:
+    `pos = strstr(val, sub); if (pos is NULL) throw(ValueError …);
+     count = strlen(pos) - strlen(sub) + 1; memmove(pos, pos + strlen(sub), count);`   (no reallocation) -/
 def rem (P : Params) (s : Str) (x : List Byte) : Res :=
   let hay := cstrAt s.buf 0
   match findSub x hay with                                            -- strstr reads up to the terminator
@@ -229,6 +233,20 @@ def rem (P : Params) (s : Str) (x : List Byte) : Res :=
       log := [.rd 0 (hay.length + 1) s.buf.length, .rd p (lp + 1) s.buf.length,
               .rd (p + x.length) count s.buf.length, .wr p count s.buf.length] }
 
+/-- `String_Rem(self, obj)` from its first statement `char* sub = c_str(obj);` (e60e6ec): `arg` = the C string of the
+    operand, `none` = the operand has no C_Str instance — `c_str` raises ClassError before anything is read or written.
+    (Before the fix such an operand was silently ignored: `remArgOld`.) -/
+def remArg (P : Params) (s : Str) (arg : Option (List Byte)) : Res :=
+  match arg with
+  | none => { st := s, out := .raised .ClassError, log := [] }
+  | some x => rem P s x
+
+/-- `String_Rem` before e60e6ec: `c = instance(obj, C_Str); if (c and c->c_str) { … }` — no C string, no effect, no exception -/
+def remArgOld (P : Params) (s : Str) (arg : Option (List Byte)) : Res :=
+  match arg with
+  | none => { st := s, out := .ok 0, log := [] }
+  | some x => rem P s x
+
 /-- `String_Format_To(self, pos, fmt, va)` (the non-Windows, non-Mac branch) where the formatted text is `f`:
     `size = vsnprintf(NULL, 0, fmt, va); s->val = realloc(s->val, pos + size + 1);
      return vsprintf(s->val + pos, fmt, va);` -/
@@ -237,6 +255,21 @@ def formatTo (P : Params) (J : Nat → Byte) (s : Str) (pos : Nat) (f : List Byt
   let b1 := realloc J s.buf (P.formatSize pos size)
   let b2 := writeAt b1 pos (f ++ [0])
   { st := ⟨b2⟩, out := .ok size, log := [.wr pos (size + 1) b1.length] }
+
+/-- `String_Format_To` from its measuring call (a626877): `size = vsnprintf(NULL, 0, fmt, va); if (size < 0) { return size; }`
+    — `f = none`: libc rejects the format (e.g. `%lc` with a wide character the locale cannot encode); the negative value is
+    returned and the String is not touched.  Otherwise as `formatTo`. -/
+def formatToR (P : Params) (J : Nat → Byte) (s : Str) (pos : Nat) (f : Option (List Byte)) : Res :=
+  match f with
+  | none => { st := s, out := .rejected, log := [] }
+  | some f => formatTo P J s pos f
+
+/-- `String_Format_To` before a626877: the negative size went into `realloc(s->val, pos + size + 1)` = `realloc(val, pos)`
+    (size = -1) and `vsprintf` wrote nothing: the allocation is cut to `pos` bytes — for `pos ≤ len` the terminator is gone -/
+def formatToROld (P : Params) (J : Nat → Byte) (s : Str) (pos : Nat) (f : Option (List Byte)) : Res :=
+  match f with
+  | none => { st := ⟨realloc J s.buf pos⟩, out := .rejected, log := [] }
+  | some f => formatTo P J s pos f
 
 /-! ## observers -/
 
@@ -366,6 +399,334 @@ def run (a : List Byte) : List Op → List Byte
   | op :: ops => run (step a op) ops
 
 end Spec
+
+/-! ## formatted writes through `print_to_with` / `show_to` (src/Show.c): the position bookkeeping
+
+  `print_to(out, pos, fmt, …)` is `print_to_with(out, pos, fmt, tuple(…))`.  Seen from a String target, `print_to_with`
+  is a sequence of steps of two kinds:
+    * `int off = format_to(out, pos, frag, val); … pos += off;`   in one of seven places (`Branch`), and
+    * `pos = show_to(a, out, pos);`   for `%$`, where the Show instance of `a` makes further `print_to` calls.
+  Nothing else ties the position to the bytes `String_Format_To` wrote, so the position updates are *parameters*
+  (`PosParams`), regenerated from src/Show.c on every run (CelloGen/Str.lean `posParams`); `PosParams.modelled` is the
+  arithmetic this model was written against and the theorems hold for every `PosParams.Lawful` set. -/
+
+/-- the places of `print_to_with` that call `format_to` and then move the position -/
+inductive Branch where
+  | lit   -- a literal run
+  | pct   -- `%%`
+  | str   -- `%s`           → `c_str(a)`
+  | int   -- `%d %i %o %u %x %X` → `c_int(a)`
+  | flt   -- `%f %e %g %a …` → `c_float(a)`
+  | chr   -- `%c`           → `c_int(a)`
+  | ptr   -- `%p`           → the object
+deriving Repr, DecidableEq, Inhabited
+
+/-- the position arithmetic of `print_to_with` -/
+structure PosParams where
+  /-- the new `pos` after `int off = format_to(out, pos, …)` in a branch, as a function of the old `pos`, of `off`, and of
+      `width` = the number of characters of the format the branch consumed (`fmt - start`, 2 for `%%`) -/
+  adv : Branch → Nat → Nat → Nat → Nat
+  /-- the new `pos` after `show_to(a, out, pos)` returned `ret` in the `%$` branch, as a function of old `pos` and `ret` -/
+  shw : Nat → Nat → Nat
+
+/-- the arithmetic this model was written against: `pos += off;` everywhere, `pos = show_to(a, out, pos);` -/
+def PosParams.modelled : PosParams := { adv := fun _ pos off _ => pos + off, shw := fun _ ret => ret }
+
+/-- what the theorems need: the position moves by exactly what `format_to` reported.  A literal run is printed verbatim
+    (`off = width`), `%%` prints one character for two of the format (`off = 1`, `width = 2`) — so e.g. `pos += fmt - start`
+    is lawful for literals and `pos += 2` is not lawful for `%%`. -/
+structure PosParams.Lawful (Q : PosParams) : Prop where
+  lit : ∀ pos off, Q.adv .lit pos off off = pos + off
+  pct : ∀ pos, Q.adv .pct pos 1 2 = pos + 1
+  spec : ∀ br, br ≠ .lit → br ≠ .pct → ∀ pos off width, Q.adv br pos off width = pos + off
+  shw : ∀ pos ret, Q.shw pos ret = ret
+
+theorem PosParams.modelled_lawful : PosParams.modelled.Lawful :=
+  ⟨fun _ _ => rfl, fun _ => rfl, fun _ _ _ _ _ _ => rfl, fun _ _ => rfl⟩
+
+/-- one step of `print_to_with` as the target sees it -/
+inductive Item where
+  /-- `int off = format_to(out, pos, frag, val); pos += off;` in branch `br`, having consumed `width` characters of the
+      format; `txt` = what libc prints for `frag` and `val` -/
+  | call (br : Branch) (width : Nat) (txt : List Byte)
+  /-- `show_to(a, out, pos)` is entered from the `%$` branch: the caller's `pos` is kept … -/
+  | enter
+  /-- … and it returns `ret`: `pos = show_to(a, out, pos);` -/
+  | leave
+  /-- `format_to` in branch `br` returned a negative value (libc rejects the specification; the String is untouched,
+      `formatToR`): `if (off < 0) { throw(FormatError, …); }` — the exception leaves `print_to_with` -/
+  | rejected (br : Branch)
+deriving Repr, DecidableEq, Inhabited
+
+def Item.text : Item → List Byte
+  | .call _ _ t => t
+  | _ => []
+
+/-- the text of all `format_to` calls, in order (up to the first one that fails, if any) -/
+def textOf : List Item → List Byte
+  | [] => []
+  | .rejected _ :: _ => []
+  | it :: r => it.text ++ textOf r
+
+/-- the texts of the `format_to` calls -/
+def callTexts : List Item → List (List Byte)
+  | [] => []
+  | .call _ _ t :: r => t :: callTexts r
+  | .rejected _ :: _ => []
+  | _ :: r => callTexts r
+
+/-- does a `format_to` fail, so that `print_to_with` raises FormatError (after the calls before it were made)? -/
+def raisesFormat : List Item → Bool
+  | [] => false
+  | .rejected _ :: _ => true
+  | _ :: r => raisesFormat r
+
+/-- a step as `print_to_with` can produce it: the text is a C string; a literal run is its own text, `%%` prints `%` -/
+def Item.OK : Item → Prop
+  | .call br w t => NulFree t ∧ (br = .lit → w = t.length) ∧ (br = .pct → w = 2 ∧ t = [37])
+  | .rejected _ => False      -- libc accepts every specification (otherwise FormatError leaves: `C16_rejected_format`)
+  | _ => True
+
+/-- the same, executable (evaluated by the driver on every step list it runs) -/
+def Item.okb : Item → Bool
+  | .call br w t => !t.contains 0 && (br != .lit || w == t.length) && (br != .pct || (w == 2 && t == [37]))
+  | .rejected _ => false
+  | _ => true
+
+/-- `print_to_with` on a String target: every `format_to` is `String_Format_To` at the current `pos` (one `realloc`, one
+    `vsprintf` each), `pos` moves as the source says (`Q`); `stk` = the positions of the callers of the `show_to`s that are
+    running.  Returns the object, the returned position and the access log. -/
+def emit (P : Params) (Q : PosParams) (J : Nat → Byte) : Str → Nat → List Nat → List Item → Str × Nat × List Acc
+  | s, pos, _, [] => (s, pos, [])
+  | s, pos, stk, .call br w t :: r =>
+    let res := formatTo P J s pos t
+    let off := match res.out with | .ok n => n | _ => 0
+    let (s', pos', lg) := emit P Q J res.st (Q.adv br pos off w) stk r
+    (s', pos', res.log ++ lg)
+  | s, pos, stk, .enter :: r => emit P Q J s pos (pos :: stk) r
+  | s, pos, [], .leave :: r => emit P Q J s pos [] r
+  | s, pos, p0 :: stk, .leave :: r => emit P Q J s (Q.shw p0 pos) stk r
+  | s, pos, _, .rejected _ :: _ => ((formatToR P J s pos none).st, pos, [])     -- FormatError leaves; nothing more is written
+
+/-- the same formatted writes as operations of a history: one `format_to` per call, at positions advancing by the length
+    of what was written -/
+def asFormats : Nat → List Item → List Op
+  | _, [] => []
+  | pos, .call _ _ t :: r => .format pos t :: asFormats (pos + t.length) r
+  | _, .rejected _ :: _ => []
+  | pos, _ :: r => asFormats pos r
+
+/-! ### the format string -/
+
+/-- segments of a format -/
+inductive Seg where
+  | lit (t : List Byte)                     -- maximal run without `%`
+  | pct                                     -- `%%`
+  | spec (body : List Byte) (conv : Byte)   -- `%` body conv
+deriving Repr, DecidableEq, Inhabited
+
+/-- `"diuoxXfFeEgGaAxcsp$"`: the characters that end a specification in `print_to_with` -/
+def convSet : List Byte := [100, 105, 117, 111, 120, 88, 102, 70, 101, 69, 103, 71, 97, 65, 120, 99, 115, 112, 36]
+
+/-- cut a format (a C string: no NUL) into segments the way `print_to_with` scans it; `none` = a `%` that no conversion
+    character follows (the C scanner then leaves the format: outside "well-formed") -/
+def parseSegs (conv : List Byte) : Nat → List Byte → Option (List Seg)
+  | 0, _ => none
+  | _ + 1, [] => some []
+  | fuel + 1, c :: r =>
+    if c = 37 then
+      match r with
+      | 37 :: r' => (parseSegs conv fuel r').map (Seg.pct :: ·)
+      | _ =>
+        match r.dropWhile (fun x => !conv.contains x) with
+        | [] => none
+        | d :: r' => (parseSegs conv fuel r').map (Seg.spec (r.takeWhile fun x => !conv.contains x) d :: ·)
+    else
+      (parseSegs conv fuel ((c :: r).dropWhile (· != 37))).map (Seg.lit ((c :: r).takeWhile (· != 37)) :: ·)
+
+def parseFmt (fmt : List Byte) : Option (List Seg) := parseSegs convSet (fmt.length + 1) fmt
+
+/-- which branch of `print_to_with` serves a conversion character (`$` is `show_to`, not a branch) -/
+def branchOf (c : Byte) : Option Branch :=
+  if c = 115 then some .str
+  else if [100, 105, 111, 117, 120, 88].contains c then some .int
+  else if [102, 70, 101, 69, 103, 71, 97, 65].contains c then some .flt
+  else if c = 99 then some .chr
+  else if c = 112 then some .ptr
+  else none
+
+/-- the steps `print_to_with` makes for a segmented format and an argument list: one `format_to` per literal run and per
+    `%%`, one per specification with the next argument (`prim body conv a` = what libc prints for `%` body conv with the C
+    value of `a`; `none` = `a` has no such C value — an exception, outside), `show_to` for `%$` (`shw a` = the steps the
+    Show instance of `a` makes).  `none` also when the arguments run out (FormatError, C14). -/
+def plan {α : Type} (prim : List Byte → Byte → α → Option (List Byte)) (shw : α → List Item) :
+    List Seg → List α → Option (List Item)
+  | [], _ => some []
+  | .lit t :: r, as => (plan prim shw r as).map (Item.call .lit t.length t :: ·)
+  | .pct :: r, as => (plan prim shw r as).map (Item.call .pct 2 [37] :: ·)
+  | .spec _ _ :: _, [] => none
+  | .spec b c :: r, a :: as =>
+    if c = 36 then (plan prim shw r as).map (fun l => Item.enter :: shw a ++ Item.leave :: l)
+    else
+      match branchOf c, prim b c a with
+      | some br, some t => (plan prim shw r as).map (Item.call br (b.length + 2) t :: ·)
+      | _, _ => none
+
+/-- `print_to_with(s, pos, fmt, args)` on a String target; `none` = the format is not well-formed or an argument is
+    missing / of the wrong class -/
+def printFmt {α : Type} (P : Params) (Q : PosParams) (J : Nat → Byte)
+    (prim : List Byte → Byte → α → Option (List Byte)) (shw : α → List Item)
+    (s : Str) (pos : Nat) (fmt : List Byte) (args : List α) : Option (Str × Nat × List Acc) :=
+  match parseFmt fmt with
+  | none => none
+  | some segs => (plan prim shw segs args).map (emit P Q J s pos [])
+
+/-! ### the built-in arguments the correspondence uses: Int, String, Tuple -/
+
+inductive Val where
+  | int (v : Int)
+  | str (t : List Byte)
+  | tup (items : List Val)
+deriving Repr, Inhabited
+
+mutual
+/-- the Strings inside are C strings -/
+def Val.nulFree : Val → Bool
+  | .int _ => true
+  | .str t => !t.contains 0
+  | .tup vs => Val.nulFreeAll vs
+def Val.nulFreeAll : List Val → Bool
+  | [] => true
+  | v :: r => v.nulFree && Val.nulFreeAll r
+end
+
+/-- `String_Show`'s `switch`: the characters that are written as a backslash and a second character -/
+def escTable : List (Byte × Byte) :=
+  [(7, 97), (8, 98), (12, 102), (10, 110), (13, 114), (9, 116), (11, 118), (92, 92), (39, 39), (34, 34), (63, 63)]
+
+/-- the second character of the escape, if the character has one -/
+def escOf (b : Byte) : Option Byte := (escTable.find? fun p => p.1 == b).map (·.2)
+
+/-- the character of one digit -/
+def digitByte (upper : Bool) (d : Nat) : Byte :=
+  if d < 10 then (48 + d).toUInt8 else if d < 16 then ((if upper then 55 else 87) + d).toUInt8 else 42
+
+def digitsAux (base : Nat) (upper : Bool) : Nat → Nat → List Byte → List Byte
+  | 0, _, acc => acc
+  | fuel + 1, n, acc =>
+    let acc' := digitByte upper (n % base) :: acc
+    if n / base = 0 then acc' else digitsAux base upper fuel (n / base) acc'
+
+/-- the digits of `n` in base 2 … 16, most significant first -/
+def digitsOf (base : Nat) (upper : Bool) (n : Nat) : List Byte := digitsAux base upper (n + 1) n []
+
+/-- what `%li` prints -/
+def decimal (v : Int) : List Byte := (if v < 0 then [45] else []) ++ digitsOf 10 false v.natAbs
+
+/-- one character of `String_Show`: `print_to(out, pos, "\\a")` … or `print_to(out, pos, "%c", $I(*v))` -/
+def showChar (b : Byte) : Item :=
+  match escOf b with
+  | some e => .call .lit 2 [92, e]
+  | none => .call .chr 2 [b]
+
+mutual
+/-- the steps of `show_to(a, out, pos)` for the built-in Show instances: `Int_Show` (`print_to(out, pos, "%li", self)`),
+    `String_Show` (quote, one `print_to` per character, quote), `Tuple_Show` (`"tuple("`, `print_to(out, pos, "%$", item)`
+    and `", "` between items, `")"`) — each `pos = print_to(…)` of a Show instance is a `print_to_with` of its own,
+    whose steps follow in line -/
+def showVal : Val → List Item
+  | .int v => [.call .int 3 (decimal v)]
+  | .str t => .call .lit 1 [34] :: (t.map showChar ++ [.call .lit 1 [34]])
+  | .tup vs => .call .lit 6 [116, 117, 112, 108, 101, 40] :: (showTupItems vs ++ [.call .lit 1 [41]])
+def showTupItems : List Val → List Item
+  | [] => []
+  | [v] => .enter :: (showVal v ++ [.leave])
+  | v :: w :: r => .enter :: (showVal v ++ .leave :: .call .lit 2 [44, 32] :: showTupItems (w :: r))
+end
+
+/-- flags, width, precision and `l` of a specification (the part of the printf grammar the correspondence renders) -/
+structure SpecF where
+  left : Bool := false
+  zero : Bool := false
+  plus : Bool := false
+  width : Nat := 0
+  prec : Option Nat := none
+  long : Bool := false
+deriving Repr, DecidableEq, Inhabited
+
+def isDigit (b : Byte) : Bool := 48 ≤ b && b ≤ 57
+
+/-- a decimal number of one or two digits -/
+def takeNum : List Byte → Nat × List Byte
+  | a :: b :: r => if isDigit a && isDigit b then ((a.toNat - 48) * 10 + (b.toNat - 48), r)
+                   else if isDigit a then (a.toNat - 48, b :: r) else (0, a :: b :: r)
+  | [a] => if isDigit a then (a.toNat - 48, []) else (0, [a])
+  | [] => (0, [])
+
+/-- body ::= ('-' | '0' | '+')* ([1-9][0-9]?)? ('.' [0-9][0-9]?)? 'l'? -/
+def parseSpec (body : List Byte) : Option SpecF :=
+  let fl := body.takeWhile fun b => b == 45 || b == 48 || b == 43
+  let r := body.dropWhile fun b => b == 45 || b == 48 || b == 43
+  let sp : SpecF := { left := fl.contains 45, zero := fl.contains 48, plus := fl.contains 43 }
+  let (w, r) := match r with
+    | a :: _ => if isDigit a then takeNum r else (0, r)
+    | [] => (0, r)
+  let sp := { sp with width := w }
+  let (sp, r) := match r with
+    | 46 :: a :: r' => if isDigit a then let (p, r'') := takeNum (a :: r'); ({ sp with prec := some p }, r'') else (sp, r)
+    | _ => (sp, r)
+  match r with
+  | [] => some sp
+  | [108] => some { sp with long := true }
+  | _ => none
+
+def padTo (sp : SpecF) (sign digits : List Byte) : List Byte :=
+  let fill := sp.width - (sign.length + digits.length)
+  if sp.left then sign ++ digits ++ List.replicate fill 32
+  else if sp.zero then sign ++ List.replicate fill 48 ++ digits
+  else List.replicate fill 32 ++ sign ++ digits
+
+/-- what libc prints for `%` body conv with the C value of `v` (the `int64_t` of an Int read as `int` / `unsigned` without
+    `l`, the `char*` of a String), for the part of the printf grammar the correspondence exercises:
+    `%s` (`-`, width, precision), `%c` (`-`, width; not the NUL character), `%d %i` (`-`, `0`, `+`, width, `l`),
+    `%u %x %X %o` (`-`, `0`, width, `l`).  `none` = outside that part. -/
+def renderSpec (body : List Byte) (conv : Byte) (v : Val) : Option (List Byte) :=
+  match parseSpec body, v with
+  | some sp, .str t =>
+    if conv = 115 && !sp.zero && !sp.plus && !sp.long then
+      some (padTo sp [] (match sp.prec with | some p => t.take p | none => t))
+    else none
+  | some sp, .int n =>
+    if sp.prec.isSome then none
+    else if conv = 99 then
+      let b := (n % 256).toNat.toUInt8
+      if !sp.zero && !sp.plus && !sp.long && b != 0 then some (padTo sp [] [b]) else none
+    else if conv = 100 || conv = 105 then
+      let m := if sp.long then n else Int.bmod n (2 ^ 32)
+      some (padTo sp (if m < 0 then [45] else if sp.plus then [43] else []) (digitsOf 10 false m.natAbs))
+    else if sp.plus then none
+    else
+      let m := (n % (if sp.long then 2 ^ 64 else 2 ^ 32)).toNat
+      if conv = 117 then some (padTo sp [] (digitsOf 10 false m))
+      else if conv = 120 then some (padTo sp [] (digitsOf 16 false m))
+      else if conv = 88 then some (padTo sp [] (digitsOf 16 true m))
+      else if conv = 111 then some (padTo sp [] (digitsOf 8 false m))
+      else none
+  | _, _ => none
+
+/-! ### reading from a String: `scan_from(s, pos, "%s", word)` -/
+
+/-- `isspace` in the C locale -/
+def isSpace (b : Byte) : Bool := b == 32 || (9 ≤ b && b ≤ 13)
+
+/-- `String_Format_From(s, pos, "%s%n", buf, &off)` = `vsscanf(s->val + pos, …)` for `pos ≤ len`: skip white space, take
+    the characters up to the next white space; `none` = input failure (nothing but white space: `scan_from` raises
+    FormatError).  Returns the word and the new position `pos + off`. -/
+def scanWord (s : Str) (pos : Nat) : Option (List Byte × Nat) :=
+  let rest := cstrAt s.buf pos                      -- the C string that starts at `s->val + pos`
+  let sp := rest.takeWhile isSpace
+  let w := (rest.dropWhile isSpace).takeWhile (fun b => !isSpace b)
+  if w.isEmpty then none else some (w, pos + sp.length + w.length)
 
 /-! ## helpers for the driver (canonical dump) -/
 
